@@ -283,13 +283,129 @@ theorem overlapping_dumps_on_this_tree (enc : List E → Bytes) (dec : Bytes →
   rw [hl] at hfin ⊢
   exact overlapping_dump_reloads enc dec hcodec blocksOf scratch sched i hfit hfin
 
+/-! ### The key field of a dumped entry takes any octets
+
+Cache keys are binary. With the key in a proto3 `bytes` field (regenerated fact
+`c19KeyFieldIsBytes`: dump.proto, the Go field type and the raw descriptor
+agree) every block marshals whatever the questions are, so `writeDump` writes
+every block it formed and the reload returns ALL entries. With a validated
+(`string`) field the first entry whose key is not valid UTF-8 - a question of
+type ANY / AXFR / TYPE128..255, class ANY / NONE, a name of 128 octets or more -
+makes the dump end there with an error. -/
+
+theorem written_bytes (keyOf : E → Bytes) : ∀ blocks : List (List E), written .bytes keyOf blocks = (blocks, false) := by
+  intro blocks
+  induction blocks with
+  | nil => rfl
+  | cons b bs ih => simp [written, marshals, ih]
+
+/-- **C19 (every live entry is reproduced, whatever its question).** -/
+theorem reload_all_keys (enc : List E → Bytes) (dec : Bytes → Option (List E)) (hcodec : ∀ b, dec (enc b) = some b)
+    (keyOf : E → Bytes) (blocks : List (List E)) (hfit : ∀ b ∈ blocks, (enc b).length ≤ maxBlock) :
+    (written .bytes keyOf blocks).2 = false ∧
+    load dec (blocks.length + 1) (plain enc (written .bytes keyOf blocks).1) true = (blocks.flatten, false) := by
+  rw [written_bytes]
+  exact ⟨rfl, reload_all enc dec hcodec blocks hfit⟩
+
+/-- The kind of the key field in this tree's dump schema (regenerated). -/
+def keyKind : FieldKind := if Gen.Facts.c19KeyFieldIsBytes == some true then .bytes else .utf8
+
+theorem reload_all_keys_on_this_tree (enc : List E → Bytes) (dec : Bytes → Option (List E)) (hcodec : ∀ b, dec (enc b) = some b)
+    (keyOf : E → Bytes) (blocks : List (List E)) (hfit : ∀ b ∈ blocks, (enc b).length ≤ maxBlock) :
+    (written keyKind keyOf blocks).2 = false ∧
+    load dec (blocks.length + 1) (plain enc (written keyKind keyOf blocks).1) true = (blocks.flatten, false) := by
+  have hk : keyKind = .bytes := by decide
+  rw [hk]
+  exact reload_all_keys enc dec hcodec keyOf blocks hfit
+
+/-- A validated key field loses the dump: one entry whose key is not valid
+UTF-8 in the first block, and nothing is written (the hypothesis on the field
+kind is needed). -/
+theorem utf8_key_field_loses_dump (keyOf : E → Bytes) (b : List E) (bs : List (List E)) (e : E) (he : e ∈ b)
+    (hbad : validUtf8 (keyOf e) = false) : written .utf8 keyOf (b :: bs) = ([], true) := by
+  have : b.all (fun e => marshals .utf8 (keyOf e)) = false := by
+    apply Bool.eq_false_iff.mpr
+    intro hall
+    have := List.all_eq_true.mp hall e he
+    simp [marshals, hbad] at this
+  simp [written, this]
+
+theorem inR_ascii (lo hi : Nat) (b : UInt8) (hlo : 128 ≤ lo) (hb : b.toNat < 128) : inR lo hi b = false := by
+  simp [inR]; omega
+
+/-- An octet >= 0x80 followed by an ASCII octet is never well-formed UTF-8. -/
+theorem high_then_ascii (f : Nat) (a b : UInt8) (rest : Bytes) (ha : 128 ≤ a.toNat) (hb : b.toNat < 128) :
+    validUtf8Aux (f + 1) (a :: b :: rest) = false := by
+  have na : ¬ a.toNat < 128 := by omega
+  have l1 : inR 0x80 0xBF b = false := inR_ascii _ _ b (by omega) hb
+  have l2 : ∀ hi, inR (if a.toNat = 0xE0 then 0xA0 else 0x80) hi b = false := fun hi =>
+    inR_ascii _ _ b (by split <;> omega) hb
+  have l3 : ∀ hi, inR (if a.toNat = 0xF0 then 0x90 else 0x80) hi b = false := fun hi =>
+    inR_ascii _ _ b (by split <;> omega) hb
+  rw [validUtf8Aux]
+  simp only [na, if_false, l1, Bool.false_and]
+  split
+  · rfl
+  · split
+    · cases rest with
+      | nil => rfl
+      | cons c r => simp only [l2, Bool.false_and]
+    · split
+      · cases rest with
+        | nil => rfl
+        | cons c r =>
+          cases r with
+          | nil => rfl
+          | cons d r => simp only [l3, Bool.false_and]
+      · rfl
+
+/-- Keys of questions whose type has a low octet >= 0x80 (ANY, AXFR, IXFR,
+MAILA/B, TSIG, TKEY, TYPE128..255, ...) are not valid UTF-8, whatever the name. -/
+theorem high_qtype_key_not_utf8 (flags qtype qclass : Nat) (name : Bytes)
+    (hf : flags < 128) (h1 : qtype / 256 < 128) (h2 : 128 ≤ qtype % 256) (h3 : qclass / 256 < 128) :
+    validUtf8 (msgKey flags qtype qclass name) = false := by
+  have e0 : (UInt8.ofNat flags).toNat < 128 := by simp [UInt8.toNat_ofNat']; omega
+  have e1 : (UInt8.ofNat (qtype / 256)).toNat < 128 := by simp [UInt8.toNat_ofNat']; omega
+  have e2 : 128 ≤ (UInt8.ofNat qtype).toNat := by simp [UInt8.toNat_ofNat']; omega
+  have e3 : (UInt8.ofNat (qclass / 256)).toNat < 128 := by simp [UInt8.toNat_ofNat']; omega
+  simp only [validUtf8, msgKey, List.length_cons]
+  rw [validUtf8Aux]; simp only [e0, if_true]
+  rw [validUtf8Aux]; simp only [e1, if_true]
+  exact high_then_ascii _ _ _ _ e2 e3
+
+/-- Keys of ordinary questions with a name of 128..255 octets are not valid
+UTF-8 either: the length octet is >= 0x80 and an ASCII label octet follows. -/
+theorem long_name_key_not_utf8 (flags qtype qclass : Nat) (c : UInt8) (rest : Bytes)
+    (hf : flags < 128) (h1 : qtype / 256 < 128) (h2 : qtype % 256 < 128) (h3 : qclass / 256 < 128) (h4 : qclass % 256 < 128)
+    (hl : 128 ≤ (c :: rest).length % 256) (hc : c.toNat < 128) :
+    validUtf8 (msgKey flags qtype qclass (c :: rest)) = false := by
+  have e0 : (UInt8.ofNat flags).toNat < 128 := by simp [UInt8.toNat_ofNat']; omega
+  have e1 : (UInt8.ofNat (qtype / 256)).toNat < 128 := by simp [UInt8.toNat_ofNat']; omega
+  have e2 : (UInt8.ofNat qtype).toNat < 128 := by simp [UInt8.toNat_ofNat']; omega
+  have e3 : (UInt8.ofNat (qclass / 256)).toNat < 128 := by simp [UInt8.toNat_ofNat']; omega
+  have e4 : (UInt8.ofNat qclass).toNat < 128 := by simp [UInt8.toNat_ofNat']; omega
+  have e5 : 128 ≤ (UInt8.ofNat (c :: rest).length).toNat := by simp [UInt8.toNat_ofNat'] at hl ⊢; omega
+  simp only [validUtf8, msgKey, List.length_cons]
+  rw [validUtf8Aux]; simp only [e0, if_true]
+  rw [validUtf8Aux]; simp only [e1, if_true]
+  rw [validUtf8Aux]; simp only [e2, if_true]
+  rw [validUtf8Aux]; simp only [e3, if_true]
+  rw [validUtf8Aux]; simp only [e4, if_true]
+  exact high_then_ascii _ _ _ _ (by simpa using e5) hc
+
+example : validUtf8 (msgKey 0 255 1 [97, 46]) = false := by decide          -- `a. IN ANY`
+example : validUtf8 (msgKey 0 1 255 [97, 46]) = false := by decide          -- `a. ANY A`
+example : validUtf8 (msgKey 7 1 1 [97, 46]) = true := by decide             -- `a. IN A` with AD, CD, DO
+example : written .utf8 (fun (e : Nat × Bytes) => e.2) [[(0, msgKey 0 1 1 [97, 46]), (1, msgKey 0 255 1 [97, 46])], [(2, msgKey 0 28 1 [98, 46])]]
+    = ([], true) := by decide
+
 /-! ### Guards over the regenerated facts -/
 theorem facts_guard :
     Gen.Facts.c19EntryFields = some true ∧ Gen.Facts.c19BlockSize = some 128 ∧
     Gen.Facts.c19MaxBlockLen = some 1048576 ∧ Gen.Facts.c19MaxBlockCmp = Base.Cmp.gt ∧
     Gen.Facts.c19HeaderEofOnly = some true ∧ Gen.Facts.c19HeaderNameChecked = some true ∧
     Gen.Facts.c19ReadUsesAllTimes = some true ∧ Gen.Facts.c19WriterSplitsBySize = some true ∧
-    Gen.Facts.c19WriterStateLocal = some true := by decide
+    Gen.Facts.c19WriterStateLocal = some true ∧ Gen.Facts.c19KeyFieldIsBytes = some true := by decide
 
 /-! ### Non-vacuity: two blocks over a toy codec (`enc` = identity on byte lists) -/
 def encT : List UInt8 → Bytes := id
